@@ -241,6 +241,29 @@ var validCatalogue = []entry{
 		l.Override, l.Roots, l.RejExt, l.EKUs, l.OnlyCA, l.RejExp, l.RejUnexp, l.Readonly = "", nil, nil, nil, false, false, false, false
 		l.MaxDelay, l.ExpDelay = 0, 0
 	}},
+	{name: "all-logs-minimal", targets: whole(func(c *ValCase) bool { return len(c.Logs) > 0 }), apply: func(t *rapid.T, c *ValCase, _ int) {
+		// every log in the shape of the configurations shipped with the repository: small tree id, a
+		// prefix, a key file reference, nothing else. (In binary form such a file is short and consists
+		// of 7-bit / valid UTF-8 octets only - the loaders must still take it.)
+		for i := range c.Logs {
+			l := &c.Logs[i]
+			*l = RawLog{
+				ID:      int64(rapid.IntRange(1, 15).Draw(t, "min-id"))<<3 | int64(i),
+				Prefix:  l.Prefix,
+				Backend: l.Backend,
+				Priv:    &RawPriv{Pool: "p256-0", Form: "pem-file", Path: rapid.SampledFrom(pemPaths).Draw(t, "min-path"), Password: rapid.SampledFrom(passwords).Draw(t, "min-pw")},
+			}
+			if rapid.Bool().Draw(t, "min-ascii-prefix") {
+				l.Prefix = fmt.Sprintf("%c%d", rune('a'+i), i)
+			}
+			if rapid.IntRange(0, 2).Draw(t, "min-eku") == 0 {
+				l.EKUs = []string{"ServerAuth"}
+			}
+			if rapid.IntRange(0, 2).Draw(t, "min-mmd") == 0 {
+				l.MaxDelay, l.ExpDelay = int32(rapid.IntRange(1, 100).Draw(t, "min-mmd-v")), 1
+			}
+		}
+	}},
 	{name: "toggle-readonly", targets: allLogs, apply: func(t *rapid.T, c *ValCase, i int) { c.Logs[i].Readonly = !c.Logs[i].Readonly }},
 	{name: "odd-reject-extensions", targets: allLogs, apply: func(t *rapid.T, c *ValCase, i int) {
 		// not a rule of the statement (checked at set-up time only)
